@@ -72,15 +72,22 @@ NAMESPACE_RE = re.compile(r"^namespace\s+([\w.]+)", re.M)
 
 
 def theorems_in(path: Path) -> list[tuple[str, int, int]]:
-    """(qualified name, first line, last line) for each theorem of a Lean file (single namespace per file)"""
-    text = path.read_text()
-    ns = NAMESPACE_RE.search(text)
-    prefix = ns.group(1) + "." if ns else ""
-    lines = text.split("\n")
+    """(qualified name, first line, last line) for each theorem of a Lean file; `namespace X` / `end X` lines are tracked"""
+    lines = path.read_text().split("\n")
+    stack: list[str] = []
     starts = []
-    for m in THEOREM_RE.finditer(text):
-        line = text.count("\n", 0, m.start()) + 1
-        starts.append((prefix + m.group(1), line))
+    for n, line in enumerate(lines, 1):
+        m = re.match(r"^namespace\s+([\w.]+)", line)
+        if m:
+            stack.append(m.group(1))
+            continue
+        m = re.match(r"^end\s+([\w.]+)\s*$", line)
+        if m and stack and stack[-1] == m.group(1):
+            stack.pop()
+            continue
+        m = re.match(r"^(?:@\[[^\]]*\]\s*)?(?:private\s+|protected\s+)?theorem\s+([\w.']+)", line)
+        if m:
+            starts.append((".".join(stack + [m.group(1)]), n))
     out = []
     for i, (name, line) in enumerate(starts):
         end = starts[i + 1][1] - 1 if i + 1 < len(starts) else len(lines)
